@@ -36,7 +36,7 @@ func init() {
 			{ID: "C01-R9", Title: "compile functions meet their stack contract on all paths (shared with C04-R2)", Floor: 35, Run: c04r2},
 			{ID: "C01-R10", Title: "break/continue land at the loop's label heights (shared with C04-R3)", Floor: 5, Run: c04r3},
 			{ID: "C01-R11", Title: "declared names bind in the current scope (shared with C02-R9)", Floor: 3, Run: bindingDoesNotFallBackOutward},
-			{ID: "C01-R12", Title: "operands of a piped call are compiled as ordinary expressions", Floor: 2, Run: partialModeOffForOperands},
+			{ID: "C01-R12", Title: "operands of a piped call are compiled as ordinary expressions", Floor: 1, Run: partialModeOffForOperands},
 			{ID: "C01-R13", Title: "derived fields of containers are updated by every mutator (shared with C16-R4)", Floor: 5, Run: c16r4},
 			{ID: "C01-R5", Title: "lexical scoping: nearest-scope-first resolution, per-activation variable storage (shared with C02-R2/R3)", Floor: 5, Run: func(c *core.Ctx) { c02r2(c); c02r3(c); c02r4(c); c02r5(c); c02r6(c) }},
 			{ID: "C01-R14", Title: "raw string text becomes a constant only where the literal is not a template", Floor: 1, Run: plainStringConstantsOnlyForPlainStrings},
@@ -48,9 +48,9 @@ func init() {
 			{ID: "C01-R20", Title: "operands are compiled in source order", Floor: 10, Run: operandsCompiledInSourceOrder},
 			{ID: "C01-R21", Title: "derived constructors copy every field (shared with C02-R11)", Floor: 1, Run: derivedConstructorsCopyEveryField},
 			{ID: "C01-R22", Title: "equality is decided by Equals", Floor: 1, Run: equalityIsDecidedByEquals},
-			{ID: "C01-R23", Title: "table indexes fit their 16-bit operand", Floor: 2, Run: tableIndexesFitTheirOperand},
+			{ID: "C01-R23", Title: "table indexes fit their 16-bit operand", Floor: 1, Run: tableIndexesFitTheirOperand},
 			{ID: "C01-R24", Title: "scratch buffers stay in the VM", Floor: 1, Run: scratchBuffersStayInTheVM},
-			{ID: "C01-R25", Title: "operator precedence fixed before advancing (shared with C20-R5)", Floor: 2, Run: c20r5},
+			{ID: "C01-R25", Title: "operator precedence fixed before advancing (shared with C20-R5)", Floor: 1, Run: c20r5},
 			{ID: "C01-R26", Title: "float operands yield floats", Floor: 2, Run: floatOperandsYieldFloats},
 			{ID: "C01-R27", Title: "the partial flag is for call stages only", Floor: 1, Run: thePartialFlagIsForCallStagesOnly},
 			{ID: "C01-R28", Title: "no ordering by integer subtraction (shared with C15-R4)", Floor: 8, Run: c15r4},
@@ -58,7 +58,7 @@ func init() {
 			{ID: "C01-R30", Title: "nodes are not built on the token before without a look at it (shared with C20-R24)", Floor: 1, Run: nodesAreNotBuiltOnTheTokenBefore},
 			{ID: "C01-R31", Title: "var declares in both its forms", Floor: 1, Run: varDeclaresInBothForms},
 			{ID: "C01-R32", Title: "the dispatch loop gives nil no meaning of its own", Floor: 1, Run: theDispatchLoopGivesNilNoMeaningOfItsOwn},
-			{ID: "C01-R33", Title: "operators do not manufacture constants", Floor: 3, Run: operatorsDoNotManufactureConstants},
+			{ID: "C01-R33", Title: "operators do not manufacture constants", Floor: 1, Run: operatorsDoNotManufactureConstants},
 			{ID: "C01-R34", Title: "assignment targets are evaluated before the value", Floor: 3, Run: assignmentTargetsAreEvaluatedBeforeTheValue},
 		},
 	})
